@@ -165,28 +165,44 @@ func (r *ResSpec) Wrapped() *jsonapi.Wrapper {
 	st := r.Type.GoStruct()
 	pv := reflect.New(st)
 	sv := pv.Elem()
-	sv.FieldByName("ID").SetString(r.ID)
 
-	for i, a := range r.Type.Attrs {
-		v := CloneValue(r.Vals[a.Name])
-		if v == nil {
-			continue // nil nullable: the zero pointer
+	fill := func() {
+		sv.FieldByName("ID").SetString(r.ID)
+
+		for i, a := range r.Type.Attrs {
+			v := CloneValue(r.Vals[a.Name])
+			if v == nil {
+				continue // nil nullable: the zero pointer
+			}
+
+			sv.FieldByName(fmt.Sprintf("A%d", i)).Set(reflect.ValueOf(v))
 		}
 
-		sv.FieldByName(fmt.Sprintf("A%d", i)).Set(reflect.ValueOf(v))
+		for i, rel := range r.Type.Rels {
+			v := CloneValue(r.Vals[rel.Name])
+			sv.FieldByName(fmt.Sprintf("R%d", i)).Set(reflect.ValueOf(v))
+		}
 	}
 
-	for i, rel := range r.Type.Rels {
-		v := CloneValue(r.Vals[rel.Name])
-		sv.FieldByName(fmt.Sprintf("R%d", i)).Set(reflect.ValueOf(v))
-	}
-
-	// Wrap takes a pointer to a struct or a struct value (which it copies); which
-	// of the two a spec gets is a pure function of its ID, so that both forms occur
-	// everywhere wrapped resources are used and a replay builds the same one.
-	if core.HashString(r.ID)%3 == 0 {
+	// Wrap takes a pointer to a struct or a struct value (which it copies), and a
+	// wrapper around a pointer is a live view of the caller's struct: "changes made
+	// to the Wrapper object will be applied to v" and the caller goes on using v.
+	// Which of three forms a spec gets is a pure function of its ID, so that all
+	// occur everywhere wrapped resources are used and a replay builds the same one:
+	// a struct value; a pointer to a filled struct; a pointer to a struct the caller
+	// fills only after wrapping it (an ID assigned later, a row scanned into it).
+	switch core.HashString(r.ID) % 3 {
+	case 0:
+		fill()
 		return jsonapi.Wrap(sv.Interface())
+	case 1:
+		w := jsonapi.Wrap(pv.Interface())
+		fill()
+
+		return w
 	}
+
+	fill()
 
 	return jsonapi.Wrap(pv.Interface())
 }
